@@ -252,7 +252,7 @@ func reportLockOrder(r *Report, la *LockAnalysis, rule string) {
 		}
 	}
 	for _, p := range la.problems {
-		if strings.Contains(p.key, "/reacquire/") {
+		if strings.Contains(p.key, "/reacquire/") || strings.Contains(p.key, "/recursive-rlock/") {
 			r.Bad(rule, p.key, p.pos, p.detail)
 		}
 	}
